@@ -11,6 +11,8 @@ mod mon_b;
 mod mon_c;
 mod mon_d;
 mod mon_e;
+mod mon_f;
+mod mon_g;
 mod nodes;
 mod render;
 mod scalars;
@@ -125,6 +127,9 @@ fn run(args: &Args) {
             let mut r2 = Rng::derive(args.seed, 0x19, args.shard);
             mon_e::loader_inputs(&args.tier, args.seed, args.shard, args.nshards, args.scale, &mut stats, &mut |s, st| mon_e::check_c19(s, st, &mut r2))
         }
+        "C08" => mon_f::run_c08(&args.tier, args.seed, args.shard, args.nshards, args.scale, &mut stats),
+        "C09" => mon_g::run_c09(&args.tier, args.seed, args.shard, args.nshards, args.scale, &mut stats),
+        "C13" => mon_g::run_c13(&args.tier, args.seed, args.shard, args.nshards, args.scale, &mut stats),
         "C04" => mon_d::run_c04(&args.tier, args.seed, args.shard, args.nshards, args.scale, &mut stats),
         "C05" => mon_d::run_c05(&args.tier, args.seed, args.shard, args.nshards, args.scale, &mut stats),
         p => {
@@ -156,6 +161,9 @@ fn replay(path: &str) {
         "C03" => mon_c::replay_c03(&case, &mut stats),
         "C06" => mon_c::replay_c06(&case, &mut stats),
         "C04" => mon_d::replay_c04(&case, &mut stats),
+        "C09" => mon_g::replay_c09(&case, &mut stats),
+        "C13" => mon_g::replay_c13(&case, &mut stats),
+        "C08" => mon_f::replay_c08(&case, &mut stats),
         "C07" => mon_e::check_c07(&input, &mut stats),
         "C19" => mon_e::check_c19(&input, &mut stats, &mut rng),
         "C05" => mon_d::replay_c05(&case, &mut stats),
